@@ -3,6 +3,7 @@
 # 71 stable passes, the only permitted failure is functions::test_to_serde_json (fails at the pinned commit too).
 cd "${1:-/repo}" || exit 2
 out=$(CARGO_NET_OFFLINE=true cargo test --workspace --no-fail-fast --offline 2>&1)
+[ -n "$REPO_TESTS_VERBOSE" ] && echo "$out"
 passed=$(echo "$out" | grep -E '^test .* \.\.\. ok$' | wc -l)
 failed=$(echo "$out" | grep -E '^test .* \.\.\. FAILED$' | sed 's/^test //; s/ \.\.\. FAILED$//' | sort | tr '\n' ' ')
 echo "passed=$passed failed=[$failed]"
